@@ -10,3 +10,5 @@ import DateutilVerif.Properties.C07
 #print axioms C07.fraction_truncates
 #print axioms C07.fraction_extra_ignored
 #print axioms C07.isoYear_in_range
+#print axioms C07.parse_tzstr_render_gen
+#print axioms C07.parse_isodate_scan_render_gen
